@@ -9,7 +9,7 @@
     arbitrary: [ring_ok] asks for the commutative-ring laws and for [kzero] (the model of the
     C++ test |c| < 100 eps) to be the exact zero test. *)
 Require Import Bool List Arith ZArith Ring_theory.
-From PV Require Import Outcome Fock Poly PolySem CAR NormalizeProofs AlgebraBasics AlgebraProofs.
+From PV Require Import Outcome Fock Poly PolySem CAR NormalizeProofs AlgebraBasics AlgebraProofs PolyVec.
 Import ListNotations.
 
 (** * 1. The canonical anticommutation relations for the action on Fock states *)
@@ -280,3 +280,35 @@ Theorem Sz_shortcut_sound :
   forall t, t <> s -> coef_poly K k0 k1 kadd kmul kopp P s t = k0.
 Proof. exact AlgebraBasics.Sz_shortcut_sound. Qed.
 Print Assumptions Sz_shortcut_sound.
+
+(** * the vector form getMatrixElement(bra, ket, states) (hand-written model PV.PolyVec; tied on every run by the GMEVEC comparison
+    of harness/h_c05.cpp): with the unit vectors e_j, e_i over a list of pairwise different basis states IN ANY ORDER it returns the
+    pair form getMatrixElement(states[j], states[i]).  The number type and its operations are arbitrary; the laws used are the
+    hypotheses listed (they hold for real and complex numbers with |x| > epsilon as the non-zero test). *)
+Theorem vector_form_unit_vectors :
+  forall (K : Type) (kzero kone : K) (kadd kmul : K -> K -> K) (kconj : K -> K) (nz : K -> bool)
+         (state : Type) (state_eqb : state -> state -> bool) (dflt : state) (act : state -> list (state * K)),
+  (forall a b, state_eqb a b = true <-> a = b) ->
+  (forall x, kadd x kzero = x) -> (forall x, kadd kzero x = x) -> (forall x, kmul kzero x = kzero) ->
+  (forall x, kmul kone x = x) -> (forall x, kmul x kone = x) -> kconj kzero = kzero -> kconj kone = kone ->
+  nz kzero = false -> nz kone = true ->
+  forall states i0 j0, NoDup states -> i0 < length states -> j0 < length states ->
+  NoDup (map fst (act (nth i0 states dflt))) ->
+  melem_vec K kzero kadd kmul kconj nz state state_eqb dflt act (unit K kzero kone j0) (unit K kzero kone i0) states =
+  melem_pair K kzero state state_eqb act (nth j0 states dflt) (nth i0 states dflt).
+Proof. exact PolyVec.melem_vec_unit. Qed.
+Print Assumptions vector_form_unit_vectors.
+
+(** the hypotheses are satisfiable: integers, c^+_0 c_1 on two modes, the DESCENDING list of all four states *)
+Theorem vector_form_example :
+  ex_vec (index_of nat Nat.eqb) (ex_unit 2) (ex_unit 1) [3; 2; 1; 0] =
+  melem_pair Z 0%Z nat Nat.eqb ex_act (nth 2 [3; 2; 1; 0] 0) (nth 1 [3; 2; 1; 0] 0).
+Proof. exact PolyVec.melem_vec_unit_applies. Qed.
+Print Assumptions vector_form_example.
+
+(** a search that presupposes an ascending list (std::lower_bound + equality test) does NOT satisfy the statement: on the descending
+    list the element <01| c^+_0 c_1 |10> = 1 comes out as 0 *)
+Theorem vector_form_binary_search_refuted :
+  ex_vec search_lower_bound (ex_unit 2) (ex_unit 1) [3; 2; 1; 0] <> melem_pair Z 0%Z nat Nat.eqb ex_act 1 2.
+Proof. exact PolyVec.melem_vec_lower_bound_refuted. Qed.
+Print Assumptions vector_form_binary_search_refuted.
